@@ -38,8 +38,8 @@ func init() {
 		ID:    "C29",
 		Units: []string{"fasthttp.(*ResponseHeader)", "fasthttp.(*RequestHeader)", "fasthttp.(*header)", "fasthttp.delAllArgs", "fasthttp.setArg", "fasthttp.appendArg", "fasthttp.normalizeHeaderKey", "fasthttp.peekAllArg", "fasthttp.removeNewLines"},
 		Runs: []Run{
-			{Pkg: "fasthttp", Func: "vhC29ResponseOps", Quick: map[string]int{"ops": 3}, Thorough: map[string]int{"ops": 4}},
-			{Pkg: "fasthttp", Func: "vhC29RequestOps", Quick: map[string]int{"ops": 3}, Thorough: map[string]int{"ops": 4}},
+			{Pkg: "fasthttp", Func: "vhC29ResponseOps", Quick: map[string]int{"ops": 4}, Thorough: map[string]int{"ops": 5}, PathCap: 400000},
+			{Pkg: "fasthttp", Func: "vhC29RequestOps", Quick: map[string]int{"ops": 4}, Thorough: map[string]int{"ops": 5}, PathCap: 400000},
 		},
 		Assume: []string{
 			"operation alphabet Add/Set/Del over the ordinary names {X-A, x-a, X-B, x-C} (mixed case, normalisation on) with one-byte symbolic values ≠ CR/LF, observed through PeekAll/Peek/Len",
@@ -206,6 +206,27 @@ func init() {
 		},
 		Assume: []string{serveAssume,
 			"server half only: up to `requests` requests drawn from {HTTP/1.1, HTTP/1.1 close, HTTP/1.0, HTTP/1.0 keep-alive, POST with body} × DisableKeepalive × MaxRequestsPerConn ∈ {0,1} × handler SetConnectionClose position, followed by a sentinel request that is answered only if the connection is still open; responses are split by an independent minimal reader; CloseOnShutdown and the client's reuse decision are outside this check",
+		},
+	})
+	register(&Property{
+		ID:    "C17",
+		Units: serveUnits,
+		Runs: []Run{
+			{Pkg: "fasthttp", Func: "vhC17Hijack", Quick: map[string]int{"tailLen": 3}, Thorough: map[string]int{"tailLen": 6}},
+		},
+		Assume: []string{serveAssume,
+			"one hijacking GET followed by ≤ tailLen arbitrary bytes, delivered with the request, later, or split after the first byte; HijackSetNoResponse, KeepHijackedConns and ReduceMemoryUsage on/off; the hijack handler reads the connection to EOF; the clause 'the server never reads or writes that connection again' is not decided (the scripted connection cannot tell the hijack handler's reads from the server's)",
+		},
+	})
+	register(&Property{
+		ID:    "C11",
+		Units: serveUnits,
+		Runs: []Run{
+			{Pkg: "fasthttp", Func: "vhC11NoLeftovers"},
+		},
+		Assume: []string{serveAssume,
+			"one connection, two requests: request 1 from 4 kinds (form POST, chunked PUT, GET with cookies/UA, POST with Expect: 100-continue) carrying two symbolic token bytes in its headers, cookie, query and body, and a handler that consumes the body and dirties user values, response status, headers, cookie, content type and body; request 2 is a fixed GET; ReduceMemoryUsage, StreamRequestBody and segmenting on/off",
+			"several connections, parse errors, rejected expectations, timeouts, hijacks and multipart forms are outside this check",
 		},
 	})
 	register(&Property{
